@@ -63,6 +63,13 @@ def set_params(tier):
             for cov, odd in ((("base", "fan", "swing"), ("base",)), (("base", "fan", "swing"), ("base", "fan")), (("base", "fan"), ("base", "fan", "swing")),
                              (("fan", "swing"), ("fan",)), (("base",), ("base", "fan", "swing")), (("base", "swing"), ("fan",))):
                 ps.append(dict(remote_id=rid, toggle=toggle, modes=ALL_MODES, tmin=16, tmax=30, coverage=cov, on_coverage=cov if toggle else (), odd_coverage=odd))
+    # every separate-swing id once (the flag is read off the id), and sets with entries no request may select
+    for rid in IR.SPECIAL_SWING_IDS + ("ELEC7001", "ZM079056", "ELEC702", "zm079055"):
+        ps.append(dict(remote_id=rid, toggle=False, modes=ALL_MODES, tmin=20, tmax=22, coverage=("base", "fan", "swing"), on_coverage=()))
+    for rid in ids[:2]:
+        for toggle in (False, True):
+            for cov in (("base",), ("base", "fan"), ("fan",), ("base", "swing")):
+                ps.append(dict(remote_id=rid, toggle=toggle, modes=ALL_MODES, tmin=16, tmax=30, coverage=cov, on_coverage=cov if toggle else (), distractors=True))
     # sets without an 'off' entry / with fewer fan levels
     ps.append(dict(remote_id="ELEC7001", toggle=False, modes=ALL_MODES, tmin=16, tmax=30, coverage=("base", "fan", "swing"), on_coverage=(), with_off=False))
     ps.append(dict(remote_id="ELEC7001", toggle=False, modes=ALL_MODES, tmin=16, tmax=30, coverage=("fan", "swing"), on_coverage=(), fans=("auto", "high")))
